@@ -17,7 +17,7 @@ import (
 type c02Entry struct {
 	Name     string
 	Variants int
-	Seeds    []seedClass                    // seed classes that reach deep into this entry
+	Seeds    []seedClass                     // seed classes that reach deep into this entry
 	Era      func(v int) (era uint, ok bool) // era of the variant for ledger entries (to pair with same-era seeds)
 	Run      func(v int, data []byte) error
 	Hidden   bool // canaries for the guard self-test; not part of the property
